@@ -134,7 +134,7 @@ def generate(rng, opts):
             if opts.get("no_known") and fk in ("ext_write", "bytecode"):
                 fk = "ext"
             if fk == "git":
-                how = rng.choice(["oserror", "nonzero", "kbi_before", "kbi_after"])
+                how = rng.choice(["oserror", "nonzero", "kbi_before", "kbi_after", "killed_midway"])
                 at = rng.choice(["assert", "toplevel", "tag", "add", "add"])
                 if False and at == "add" and how == "kbi_after":
                     how = "kbi_before"
@@ -350,7 +350,36 @@ class SubprocessShim:
                     if f["how"] == "kbi_after":
                         fn(args, **kw)
                         raise KeyboardInterrupt
+                    if f["how"] == "killed_midway":
+                        # the git child dies (SIGKILL: OOM killer, a supervisor's timeout) in the middle of its work
+                        if site == "add":
+                            self._half_done_worktree_add(list(args), kw)
+                        if kw.get("check") or fn is real_subprocess.check_output:
+                            raise real_subprocess.CalledProcessError(-9, args, output=b"", stderr=b"")
+                        text = kw.get("text")
+                        return real_subprocess.CompletedProcess(args, -9, stdout="" if text else b"", stderr="" if text else b"")
         return fn(args, **kw)
+
+    def _half_done_worktree_add(self, args, kw):
+        """What `git worktree add -b B <dir> <ref>` leaves when it is killed while checking files out (observed with a
+        blocking smudge filter and SIGKILL, git 2.39): branch B exists, the worktree is registered and still carries
+        git's own lock with the reason `initializing`, its index is locked, the directory is partly populated."""
+        i = args.index("add")
+        head, rest = args[: i + 1], args[i + 1 :]
+        env = kw.get("env") or _env()
+        quiet = {"stdout": real_subprocess.DEVNULL, "stderr": real_subprocess.DEVNULL, "env": env}
+        r = real_subprocess.run([*head, "--no-checkout", *rest], **quiet)
+        if r.returncode != 0:
+            return  # git refused before doing anything (unknown ref, branch exists): plain failure
+        location = rest[-2]
+        base = args[: i - 1]  # git -C <repo>
+        real_subprocess.run([*base, "worktree", "lock", "--reason", "initializing", location], **quiet)
+        admin = real_subprocess.run(["git", "-C", location, "rev-parse", "--git-dir"], capture_output=True, text=True, env=env).stdout.strip()
+        if admin and os.path.isdir(admin):
+            with open(os.path.join(admin, "index.lock"), "w"):
+                pass
+        with open(os.path.join(location, "half-written.txt"), "w") as fh:
+            fh.write("partial checkout\n")
 
     def run(self, args, **kw):
         return self._call(real_subprocess.run, args, kw)
@@ -825,7 +854,7 @@ class _Prop:
         "extension raising Exception / KeyboardInterrupt / SystemExit at its n-th hook call or writing files into "
         "the checkout, bytecode caching by inspected imports. Full repository snapshot equality and empty temp dir "
         "after every operation; usability of returned objects after success. Non-trivial = every run; distinct = "
-        "distinct (operation/outcome/fault trace, layout, dirty state, worktree state). Also drawn: Git shorthand refs (@, @^), $TMPDIR behind a symlink, a post-checkout hook (succeeding or failing), user-chosen directory names for the repository and the linked worktree (incl. names that look like normalised refs), operating from a linked worktree, a user branch colliding with the temporary name of any ref, repository argument as absolute / . / relative / Path, a public package that re-exports from a private sibling package of the same checkout; after success aliases into the checkout must be usable and a changed parameter list of the public function must be reported by check."
+        "distinct (operation/outcome/fault trace, layout, dirty state, worktree state). Also drawn: Git shorthand refs (@, @^), $TMPDIR behind a symlink, a post-checkout hook (succeeding or failing), user-chosen directory names for the repository and the linked worktree (incl. names that look like normalised refs), operating from a linked worktree, a user branch colliding with the temporary name of any ref, repository argument as absolute / . / relative / Path, a public package that re-exports from a private sibling package of the same checkout; after success aliases into the checkout must be usable and a changed parameter list of the public function must be reported by check. Round j/k: remote-tracking refs and branch.autoSetupMerge; the git child killed half-way through `worktree add` (branch created, worktree registered and still locked 'initializing', index locked, directory partly populated)."
     )
     COMPONENTS = {
         "real": ["_griffe.git (tmp_worktree, assert_git_repo, get_latest_tag, get_repo_root)", "_griffe.loader.load_git", "_griffe.cli.check / main", "_griffe.diff", "git 2.39 binary", "real repository and checkout on tmpfs"],
@@ -833,7 +862,8 @@ class _Prop:
         "seams": ["_griffe.git.subprocess (fault-capable shim around the real module)", "pathlib.Path.read_text inside the checkout", "FaultExtension through extensions=", "tempfile.tempdir + seeded tempfile names", "sys.dont_write_bytecode"],
     }
     ASSUMPTIONS = [
-        "interruption = KeyboardInterrupt at a Python-visible point; SIGKILL/power loss necessarily leaves the checkout behind and is out of scope",
+        "interruption = KeyboardInterrupt at a Python-visible point; SIGKILL/power loss of the *Python* process necessarily leaves the checkout behind and is out of scope",
+        "a git child killed half-way through `worktree add` is emulated (real `worktree add --no-checkout` + `worktree lock --reason initializing` + index.lock + a partial file, exit status -9); the emulated state was compared with the one a real SIGKILL during a blocking smudge filter leaves (git 2.39)",
         "cleanup commands (worktree remove/prune, branch -D) are never made to fail by injection",
         "sampling, not enumeration",
     ]
